@@ -18,6 +18,7 @@ from verif import build, proc
 
 _PATH_RE = re.compile(r"--cfg=model-check/replay:'([^']*)'")
 _END_RE = re.compile(r"(DFS|BeFS|Parallel\w*) exploration ended\. (\d+) unique states visited; (\d+) explored traces")
+_CAME_RE = re.compile(r"Execution came to an end at ([0-9;/]*)")
 _UDPOR_END_RE = re.compile(r"UDPOR exploration ended\. (\d+) unique events considered; (\d+) backtracks")
 
 REDUCTIONS = ("none", "dpor", "sdpor", "odpor")
@@ -69,10 +70,12 @@ class Event:
 
 
 class Record:
-    __slots__ = ("kind", "trace", "fp", "events", "raw")
+    """acked: the checker itself acknowledged this terminal state (see McResult.ack)."""
+    __slots__ = ("kind", "trace", "fp", "events", "raw", "acked")
 
     def __init__(self, kind, trace, fp, events, raw):
         self.kind, self.trace, self.fp, self.events, self.raw = kind, trace, fp, events, raw
+        self.acked = True
 
 
 def parse_events(text):
@@ -122,11 +125,64 @@ class McResult:
         self.log = ""
         self.wall = 0.0
         self.aborted = None       # first line of an abort message of the checker or of the application
+        self.ended = None         # traces of "Execution came to an end at" (None: explorer that does not print them)
+        self.unacked = 0          # terminal states the application ran into but the checker did not explore
+        self.ended_unlogged = 0   # executions the checker says it completed without a matching record of the application
+        self.records_all = None
+        self.explored = []        # complete executions explored, with the multiplicity the checker reports
 
     def verdict(self):
         if self.timed_out:
             return "timeout"
         return {0: "ok", 1: "safety", 2: "deadlock", 3: "rc3", 4: "crash", 5: "rc5", 6: "rc6", 63: "rc63"}.get(self.rc, "rc%s" % self.rc)
+
+    def ack(self):
+        """Tell the terminal states that the checker *explored* from those the application merely ran into.
+
+        The explorers may ask the application to "go one way": it then runs ahead on its own to the end of an
+        arbitrary execution and the checker consumes what it sent lazily - or drops it when it backtracks earlier;
+        replays walk through terminal states again.  So the application may log a terminal state that the checker
+        never explored, and logs some of them several times.  Explored executions are those the checker says it
+        explored: "Execution came to an end at <trace>" (verbose log of the DFS / BeFS explorers, one line per
+        exploration: multiplicity is meaningful), the path of a deadlock report (printed again while the DFS unwinds:
+        multiplicity is not meaningful, each distinct deadlocked execution counts once), the path of an
+        assertion-failure report.  UDPOR prints none of these: each distinct logged terminal state counts once."""
+        seen = {}
+        for r in self.records:
+            seen.setdefault((r.kind, r.trace.rstrip(";")), r)
+        self.records_all = self.records
+        if self.ended is None:
+            self.records = list(seen.values())
+            self.explored = [r for r in self.records if r.kind in ("END", "DEADLOCK")]
+            return
+        dl = set(p for k, p in self.paths if k == "DEADLOCK")
+        asr = set(p for k, p in self.paths if k == "ASSERT")
+        keep = []
+        self.explored = []
+        by_end = {t: r for (k, t), r in seen.items() if k == "END"}
+        for t in self.ended:
+            r = by_end.get(t)
+            if r is None and len(t) >= 100:                  # DFS prints at most 100 characters of the trace
+                cands = [x for tt, x in by_end.items() if tt.startswith(t)]
+                r = cands[0] if len(cands) == 1 else None
+            if r is None:
+                self.ended_unlogged += 1                     # the checker explored it, the application did not log it
+            else:
+                self.explored.append(r)
+        ended = set(id(r) for r in self.explored)
+        for (k, t), r in seen.items():
+            if k == "END":
+                r.acked = id(r) in ended
+            elif k == "DEADLOCK":
+                r.acked = t in dl
+                if r.acked:
+                    self.explored.append(r)
+            else:
+                r.acked = t in asr
+            if r.acked:
+                keep.append(r)
+        self.unacked = len(seen) - len(keep)
+        self.records = keep
 
     def outcomes(self):
         """Set of (kind, fingerprint) of the terminal records: the program-visible outcomes that were reached.
@@ -136,8 +192,8 @@ class McResult:
         return set((r.kind, assert_part(r.fp) if r.kind == "ASSERT" else r.fp) for r in self.records)
 
     def complete(self):
-        """Records of complete executions (maximal: no enabled actor), in exploration order."""
-        return [r for r in self.records if r.kind in ("END", "DEADLOCK")]
+        """Records of the complete executions (maximal: no enabled actor) that were explored (see ack)."""
+        return self.explored
 
 
 _ABORT_MARKS = ("xbt_assert", "Assertion", "terminate called", "Segmentation", "Backtrace", "xbt_die", "Fix me", "FixMe",
@@ -150,7 +206,8 @@ def run_mc(vm, mc, spec_path, workdir, cfg, max_errors=-1, timeout=120, extra=()
     if os.path.exists(fp):
         os.unlink(fp)
     cmd = [mc] + cfg.args(max_errors) + list(extra) + \
-          ["--log=xbt_cfg.thres:warning", "--", vm, spec_path, "--log=root.thres:critical"] + list(app_extra)
+          ["--log=xbt_cfg.thres:warning", "--log=mc_dfs.thres:verbose", "--log=mc_befs.thres:verbose",
+           "--", vm, spec_path, "--log=root.thres:critical"] + list(app_extra)
     r = proc.run(cmd, timeout=timeout, env={"VERIF_MC_FP": fp}, merge_err=True)
     out = McResult()
     out.rc, out.timed_out, out.wall = r.rc, r.timed_out, r.wall
@@ -163,8 +220,10 @@ def run_mc(vm, mc, spec_path, workdir, cfg, max_errors=-1, timeout=120, extra=()
             text = mutate(text)
         out.records = parse_records(text)
     kind = None
+    if cfg.reduction != "udpor":
+        out.ended = [m.group(1).strip() for m in _CAME_RE.finditer(out.log)]
     for line in out.log.splitlines():
-        if "DEADLOCK DETECTED" in line:
+        if "mc_global/INFO] Counter-example execution trace" in line or "DEADLOCK DETECTED" in line:
             kind = "DEADLOCK"
         elif "PROPERTY NOT VALID" in line:
             kind = "ASSERT"
@@ -187,6 +246,7 @@ def run_mc(vm, mc, spec_path, workdir, cfg, max_errors=-1, timeout=120, extra=()
             if any(k in line for k in _ABORT_MARKS):
                 out.aborted = re.sub(r"^\[[^\]]*\] *(\[[^\]]*\] *)?", "", line.strip())[:300]
                 break
+    out.ack()
     return out
 
 
@@ -262,6 +322,11 @@ def classes(records):
         if r.kind in ("END", "DEADLOCK"):
             cl.setdefault(canonical(r.events), []).append(r)
     return cl
+
+
+def explored_classes(res):
+    """{canonical form: [records]} of the complete executions explored by a run, with multiplicity."""
+    return classes(res.complete())
 
 
 # ---------------------------------------------------------------------------------------------------------------------
